@@ -13,6 +13,7 @@ from Pyro5 import serializers, errors, core, client, server
 from pysym.runner import Spec
 from pysym.api import And, Or, Not, Implies, eq
 from pysym import env
+from Pyro5 import socketutil
 
 
 def allowed_classes():
@@ -237,7 +238,86 @@ def h_ext_hook(S, B):
         S.check("unknown-ext-code-is-SerializeError", Or(code == 0x30, code == 0x31, code == 0x32, code == 0x33, isinstance(exc, errors.SerializeError)))
 
 
+NET = []          # every attempt to open a connection while decoding
+
+
+def recording_create_socket(*a, **k):
+    NET.append(("create_socket", k.get("connect")))
+    raise ConnectionRefusedError(111, "connection refused (harness: no network while decoding)")
+
+
+def _inner_objects():
+    """what msgpack's object_hook has already built from the innermost dicts when it reaches the enclosing one"""
+    p = client.Proxy.__new__(client.Proxy)
+    p.__setstate__(("PYRO:victim@evil.example:9", (), (), (), "hello", None))
+    u = core.URI("PYRO:o@h:1")
+    d = server.Daemon.__new__(server.Daemon)
+    return {"proxy": p, "uri": u, "daemon": d, "exception": ValueError("inner"), "wrapper": core._ExceptionWrapper(ValueError("w"))}
+
+
+OUTER_TAGS = ["Pyro5.core.URI", "Pyro5.client.Proxy", "Pyro5.server.Daemon", "Pyro5.core._ExceptionWrapper", "builtins.ValueError",
+              "Pyro5.errors.NamingError", "struct.error", "sqlite3.OperationalError", "OSError", "Pyro5.util.JsonSerializer"]
+POSITIONS = ["args", "args-item", "attributes", "attribute-value", "state", "state-0", "state-1", "state-2", "state-3", "state-4",
+             "exception", "__class__", "__exception__"]
+
+
+def h_inner_first(S, B):
+    """msgpack decodes bottom-up: when the hook sees a class-tagged dict, the dicts inside it have been replaced by the
+    objects they denote.  Such an object may sit anywhere a plain value is expected; the decoder must treat it as a value (or
+    refuse it) and never operate on it: a Proxy connects to the address it names when it is iterated, indexed or probed."""
+    del NET[:]
+    log = install_call_log(S)
+    tag = S.choice("outer_tag", B["TAGS"])
+    pos = S.choice("position", POSITIONS)
+    inner_kind = S.choice("inner_object", ["proxy", "uri", "daemon", "exception", "wrapper"])
+    inner = _inner_objects()[inner_kind]
+    state = ["PYRO:o@h:1", (), ("m",), (), "hello", "serpent"] if tag == "Pyro5.client.Proxy" else (
+        ["PYRO", "o", None, "h", 1] if tag == "Pyro5.core.URI" else [])
+    data = {"__class__": tag, "__exception__": True, "args": ["msg"], "attributes": {"x": 1}, "state": state, "exception": ValueError("e")}
+    if pos == "args":
+        data["args"] = inner
+    elif pos == "args-item":
+        data["args"] = ["msg", inner]
+    elif pos == "attributes":
+        data["attributes"] = inner
+    elif pos == "attribute-value":
+        data["attributes"] = {"x": inner}
+    elif pos == "state":
+        data["state"] = inner
+    elif pos.startswith("state-"):
+        i = int(pos[6:])
+        if i >= len(state):
+            S.assume(False, "this class has no such state member")
+        state[i] = inner
+    elif pos == "exception":
+        data["exception"] = inner
+    else:
+        data[pos] = inner
+    result = exc = None
+    log.active = True
+    # (the interpreter runs generator functions such as Proxy.__iter__ natively: the recording stub is therefore also put
+    # in place as the module attribute for the duration of the decode, so that natively running code reaches it as well)
+    real_create_socket = socketutil.create_socket
+    socketutil.create_socket = recording_create_socket
+    try:
+        result = serializers.serializers["msgpack"].object_hook(data) if S.flag("through_the_msgpack_hook") else serializers.SerializerBase.dict_to_class(data)
+    except Exception as x:
+        exc = x
+    finally:
+        socketutil.create_socket = real_create_socket
+    log.active = False
+    if S.symbolic:
+        S.interp.call_hook = None
+    S.cover("inner:" + ("rejected" if exc is not None else "accepted"))
+    S.check("decoding-opens-no-connection", NET == [])
+    S.check("no-forbidden-call-while-decoding", log.bad == [])
+    if exc is None:
+        S.check("result-class-is-in-the-closed-set", type(result) in ALLOWED)
+    S.observe("outcome", type(exc).__name__ if exc is not None else type(result).__name__)
+
+
 ASCII = [(0x20, 0x7E)]
+STUBS = [(socketutil, "create_socket", recording_create_socket, "both")]
 
 SPECS = [
     Spec("dict_to_class", h_dict_to_class,
@@ -250,6 +330,9 @@ SPECS = [
                  "check:class-produced-only-from-its-own-tags"],
          native_patch=env.native_env,
          desc="class-tagged dict with a symbolic tag (string of any code points up to L, bytes up to LB, missing, non-string), five exception-flag values, hostile args/attributes/state/exception members, through dict_to_class and recreate_classes at top level / inside list / inside dict+tuple, serpent's and msgpack's hooks"),
+    Spec("inner_objects_first", h_inner_first, {"quick": {"TAGS": OUTER_TAGS}, "thorough": {"TAGS": OUTER_TAGS}},
+         covers=["inner:rejected", "inner:accepted", "check:decoding-opens-no-connection"], native_patch=env.native_env,
+         desc="bottom-up decoding (msgpack): a class-tagged dict of ten tags whose args / attributes / state / state member / exception / tag member is an object the decoder has already built (a Proxy naming a foreign address, URI, Daemon placeholder, exception, wrapper): decoding never opens a connection, and yields the closed set or an error"),
     Spec("msgpack_ext_hook", h_ext_hook, {"quick": {}, "thorough": {}},
          covers=["ext:rejected", "ext:complex", "ext:int"], native_patch=env.native_env,
          desc="msgpack ext_hook with a symbolic ext code and data from a list"),
